@@ -152,9 +152,10 @@ struct vyukov_hash_map_traits<Key, managed_ptr<Value, VReclaimer>, ValueReclaime
     }
 
   private:
-    accessor(storage_value_type& v, std::memory_order order) :
-        node_guard(acquire_guard(v, order)),
-        value_guard(acquire_guard(node_guard->value, order)) {}
+    // The node must not be dereferenced here - the caller first has to verify that the entry is still part of
+    // the map (the cell might be stale and the node already reclaimed). The guard for the value is therefore
+    // acquired in compare_nontrivial_key, which is called after that verification.
+    accessor(storage_value_type& v, std::memory_order order) : node_guard(acquire_guard(v, order)) {}
     [[nodiscard]] const Key& key() const { return node_guard->key; }
     // accessor(typename storage_value_type::marked_ptr v) : guard(v) {}
     typename storage_value_type::guard_ptr node_guard;
@@ -164,6 +165,16 @@ struct vyukov_hash_map_traits<Key, managed_ptr<Value, VReclaimer>, ValueReclaime
   };
 
   static accessor acquire(storage_value_type& v, std::memory_order order) { return accessor(v, order); }
+
+  // The caller has to verify once more that the entry is still part of the map after this function has returned
+  // true, otherwise the value might have been reclaimed before the guard was established.
+  static bool compare_nontrivial_key(accessor& acc, const Key& key) {
+    if (!(acc.node_guard->key == key)) {
+      return false;
+    }
+    acc.value_guard.acquire(acc.node_guard->value, std::memory_order_acquire);
+    return true;
+  }
 
   template <bool AcquireAccessor>
   static void store_item(storage_key_type& key_cell,
